@@ -195,6 +195,9 @@ func c10Conservation(e *Env, rg *Rig, lifecycle bool) {
 		_ = pos
 		last := map[uint32]*rtcp.SenderReport{}
 		for _, o := range rg.RTCPOut {
+			if o.app {
+				continue // RTCP the application wrote itself
+			}
 			for _, p := range o.pkts {
 				if sr, ok := p.(*rtcp.SenderReport); ok {
 					last[sr.SSRC] = sr
